@@ -329,6 +329,8 @@ def flush_lean(ctx, batch):
             ctx.fail("corr:accepted-but-not-ValidDoc:%s" % (a.get("validdoc_why") or "?"),
                      "validate_ast accepted a document outside the declarative ValidDoc predicate the theorems assume",
                      c.replay_data({"why": a.get("validdoc_why"), "label": label}), kind="correspondence")
+        ctx.stat("validdoc:%s" % a.get("validdoc"))
+        ctx.stat("key-consistent:%s" % a.get("key_consistent"))
         if "internal" in model:
             ctx.fail("corr:model-internal-on-validated:%s" % model["internal"],
                      "the model takes an internalError branch on a validator-accepted document (the implementation did not)",
